@@ -3,6 +3,7 @@
 cd /verif
 for d in seeded/*/; do
   n=$(basename $d); p=${n%%-*}
+  case $n in neutral-*) p=$(python3 -c "import json;print(json.load(open('$d/meta.json'))['property'])");; esac   # controls: exit=0 expected
   r=$(tools/try_seed.sh $p /verif/$d/patch.diff 2>&1 | head -1)
   echo "$n $r"
 done
